@@ -1,1 +1,6 @@
 
+import FontcProofs.Rounding
+import FontcProofs.VarModelAlg
+import FontcProofs.VarModelGeom
+import FontcProofs.VarModelSort
+import FontcProofs.VarModelTri
